@@ -160,7 +160,17 @@ static void block_self(int op, uint32_t ord) {
     fwait(&G.t[self].futex);
 }
 
-static void ensure_main(void) { if (t_tid < 0) { t_tid = 0; if (G.nt == 0) { G.nt = 1; G.t[0].state = ST_RUNNABLE; } } }
+static void ensure_main(void) {
+    if (t_tid < 0) {
+        t_tid = 0;
+        if (!G.active) {   /* linked into a program that never calls sim_sched_reset (the zstd CLI): seed from the environment */
+            SchedCfg c; const char* e = getenv("VERIF_SCHED_SEED"); memset(&c, 0, sizeof c);
+            c.seed = e ? strtoull(e, NULL, 10) : 1; c.strategy = SCHED_STICKY; c.sticky_pct = 70; c.step_cap = 2000000000L; c.fair_bound = 200; c.horizon = 300;
+            sim_sched_reset(&c);
+        }
+        if (G.nt == 0) { G.nt = 1; G.t[0].state = ST_RUNNABLE; }
+    }
+}
 
 /* ---------------- configuration ---------------- */
 void sim_sched_cfg_from_plan(SchedCfg* c, const Plan* p) {
